@@ -1321,6 +1321,8 @@ class dictable(Dict):
         rs = type(self)(xys, x + (y_,))        
         ys = rs[as_list(y_)].listby(y_)
         y2id = dict(zip(ys[y_], range(len(ys))))
+        _, yrows = rs._listby((y_,))
+        j2k = {j : k for k, js in enumerate(yrows) for j in js} ## the column of each (x,y) group by position: y2id[nan] finds only the same nan object
         columns = [str(k) if is_int(k) else k for k in y2id] ## the column names the y values become in dictable.__init__
         if len(set(columns)) < len(columns) or set(columns) & set(x):
             raise ValueError('y values %s do not give distinct column names (distinct from %s): a column would silently replace another'%(list(y2id), list(x)))
@@ -1328,8 +1330,7 @@ class dictable(Dict):
         res = [[None for _ in range(len(ys))] for _ in range(len(xs))]
         for i in range(len(xs)):
             for j in yids[i]:
-                xy = xys[j]
-                k = y2id[xy[-1]]
+                k = j2k[j]
                 value = [zs[id_] for id_ in ids[j]]
                 if agg:
                     for a in agg:
